@@ -55,13 +55,18 @@ package builder
 //@ spec def allStored(cs []data/builder.fileShardMeta) bool = forall i int :: 0 <= i && i < len(cs) ==> (cs[i].link != nil ==> stored(cs[i].link))
 
 //@ func data/builder.packFileChildren
+//@ prop C01 C11
 //@ requires children-stored: allStored(children)
 //@ at call data/builder.BuildUnixFSDirectoryEntry#1 assert child-stored: callee_hash != nil ==> stored(callee_hash)
+//@ at call data/builder.BuildUnixFSDirectoryEntry#1 assert tsize-is-cumulative-size: callee_size == int64(c.storedSize) && callee_hash == c.link && len(callee_name) == 0
 //@ inst child-stored: i: rangeindex + 1
 //@ loop 0 invariant children-stored: allStored(children)
 //@ inst children-stored: i: i
 
 //@ func data/builder.fileTreeRecursive
+//@ prop C01 C11
+//@ at return assert leaf-sizes: depth == 1 && err == nil && result0.link != nil ==> result0.byteSize == len(leaf) && result0.storedSize == sz
+//@ at return assert interior-node-sizes: depth != 1 && len(children) >= 2 && err == nil ==> result0.byteSize == totalBytes(children) && result0.storedSize == totalStored(children) + sz
 //@ ensures any-write-failure-fails-the-build: (err == nil ==> storeFailed == old(storeFailed)) && (old(storeFailed) ==> storeFailed)
 //@ requires children-stored: allStored(children)
 //@ ensures error-implies-nil-link: err != nil ==> result0.link == nil
@@ -124,3 +129,33 @@ package builder
 //@ inst monotone-so-far: l: l
 //@ loop 0 invariant no-failure-so-far: storeFailed == old(storeFailed)
 //@ at call data/builder.BuildUnixFSDirectoryEntry#1 assert entry-stored-before-directory: stored(callee_hash)
+
+// ---------------------------------------------------------------------------------------------
+// C01 / C11: size bookkeeping of the file builder. A node's content size is the total of its
+// children's content sizes, its cumulative stored size is the total of its children's cumulative
+// sizes plus its own block; FileSize/BlockSizes record content sizes and link Tsizes record
+// cumulative sizes, child by child.
+//@ props C01 C11
+
+//@ func (data/builder.fileShards).totalByteSize
+//@ pure
+//@ reads mem(fs)
+//@ alias totalBytes uint64
+
+//@ func (data/builder.fileShards).totalStoredSize
+//@ pure
+//@ reads mem(fs)
+//@ alias totalStored uint64
+
+//@ func (data/builder.fileShards).byteSizes
+//@ ensures same-length: len(result) == len(fs)
+//@ ensures element-wise: forall j int :: 0 <= j && j < len(fs) ==> result[j] == fs[j].byteSize
+//@ loop 0 invariant filled-so-far: len(sizes) == len(fs) && (forall j int :: 0 <= j && j <= rangeindex ==> sizes[j] == fs[j].byteSize)
+//@ inst filled-so-far: j: j
+//@ inst element-wise: j: j
+//@ assigns nothing
+
+// The closure that fills in the UnixFS header of an interior file node.
+//@ func data/builder.fileTreeRecursive$1
+//@ may_panic
+//@ at call data/builder.FileSize#1 assert file-size-is-content-total: callee_fileSize == totalBytes(children)
